@@ -312,6 +312,19 @@ fn gen_pattern(rng: &mut Rng, allow_nonascii: bool) -> String {
     let long = rng.chance(1, 300);
     let len = if long { rng.range(1500, 9000) } else { rng.range(0, 12) };
     let mut s = String::new();
+    // one pattern in 16 starts with a word of 8-26 lower case letters in which a single character is a capital (or one of its
+    // neighbours in the code table), at any offset: word-at-a-time scans for "has an upper case letter"
+    if !long && rng.chance(1, 16) {
+        let n = rng.range(8, 26);
+        let at = rng.below(n);
+        for i in 0..n {
+            s.push(if i == at { *rng.pick(&['Z', 'A', 'M', 'Z', '@', '[', '`', '{', 'z']) } else { (b'a' + ((i * 7 + at) % 26) as u8) as char });
+        }
+        if rng.coin() {
+            return s;
+        }
+        s.push(' ');
+    }
     for _ in 0..len {
         let c = match rng.below(10) {
             0..=3 => *rng.pick(LETTERS),
